@@ -171,7 +171,7 @@ Section Main.
   Proof.
     destruct written_file as (boxline & Hb & Hw). exists (complete_file boxline). split; [exact Hw|].
     intros Hlim.
-    destruct (title_of_ok c (ro_title _ _ _ _ _ H)) as [Hne Hnl].
+    pose proof (title_of_ok c (ro_title _ _ _ _ _ H)) as Hnl.
     destruct count1_parses as [Hc Hcnl].
     assert (Hlen9 : length box = 9) by (unfold box; apply set_box_ok, (ro_box _ _ _ _ _ H)).
     destruct (box_roundtrip box boxline Hlen9 Hb) as [Hex Hbne].
@@ -188,7 +188,7 @@ Section Main.
       rewrite <- !app_assoc. reflexivity. }
     rewrite Hshape in Hlim |- *.
     apply (read_complete title (count1 c n) (line_of w d r0) (lines_of w d rest) (boxline ++ [NL])
-             (Z.of_nat n) (w, vel) L Hne Hnl Hcnl Hc Hl (first_line_fmt r0 rest E) boxline).
+             (Z.of_nat n) (w, vel) L Hnl Hcnl Hc Hl (first_line_fmt r0 rest E) boxline).
     - unfold n. rewrite E. cbn [length]. unfold lines_of. rewrite map_length. reflexivity.
     - reflexivity.
     - apply (dump_no_nl _ _ Hb).
@@ -210,7 +210,7 @@ Section Main.
     read_gro (file_c c w d recs) = Err EIO.
   Proof.
     intros Hlim.
-    destruct (title_of_ok c (ro_title _ _ _ _ _ H)) as [Hne Hnl].
+    pose proof (title_of_ok c (ro_title _ _ _ _ _ H)) as Hnl.
     destruct count1_parses as [Hc Hcnl].
     pose proof (lines_good recs (ro_recs _ _ _ _ _ H)) as Hl.
     assert (Hex2 : exists r0 rest, recs = r0 :: rest).
@@ -228,7 +228,7 @@ Section Main.
       rewrite app_nil_r, <- !app_assoc. reflexivity. }
     rewrite Hshape.
     apply (read_rejected title (count1 c n) (line_of w d r0) (lines_of w d rest) []
-             (Z.of_nat n) (w, vel) L Hne Hnl Hcnl Hc Hl (first_line_fmt r0 rest E)).
+             (Z.of_nat n) (w, vel) L Hnl Hcnl Hc Hl (first_line_fmt r0 rest E)).
     - unfold n. rewrite E. cbn [length]. unfold lines_of. rewrite map_length. lia.
     - reflexivity.
     - exact Hlen.
@@ -240,7 +240,7 @@ Section Main.
     read_gro (file_w c w d (firstn j recs)) = Err EIO.
   Proof.
     intros Hj Hlim.
-    destruct (title_of_ok c (ro_title _ _ _ _ _ H)) as [Hne Hnl].
+    pose proof (title_of_ok c (ro_title _ _ _ _ _ H)) as Hnl.
     pose proof count_hyp as Hcnt. fold n in Hcnt.
     destruct (c_natoms c) as [k|] eqn:Ek.
     - (* declared: the seek lands at or beyond the end *)
@@ -259,7 +259,7 @@ Section Main.
         rewrite app_nil_r, <- !app_assoc. reflexivity. }
       rewrite Hshape.
       apply (read_rejected title (count1 c n) (line_of w d r0) (lines_of w d (firstn j' rest)) []
-               (Z.of_nat n) (w, vel) L Hne Hnl Hcnl Hc Hl (first_line_fmt r0 rest E)).
+               (Z.of_nat n) (w, vel) L Hnl Hcnl Hc Hl (first_line_fmt r0 rest E)).
       + cbn [length]. unfold lines_of. rewrite map_length, firstn_length.
         assert (length rest = n - 1) by (unfold n; rewrite E; simpl; lia). lia.
       + reflexivity.
@@ -267,7 +267,7 @@ Section Main.
         rewrite <- Nat2Z.inj_mul, <- Nat2Z.inj_add. lia.
     - (* not declared: the count line is blank *)
       unfold file_w, header0, count0. rewrite Ek. rewrite <- !app_assoc.
-      apply read_bad_count; [assumption|assumption|apply no_nl_repeat_sp|].
+      apply read_bad_count; [assumption|apply no_nl_repeat_sp|].
       apply py_int_blank. rewrite forallb_app'. rewrite forallb_repeat by reflexivity. reflexivity.
   Qed.
 
